@@ -58,6 +58,24 @@ def cmd_import(name, prop, wt):
     print("imported", name, "demo at", m["demo_path"])
 
 
+def cmd_import2(name, prop, outdir):
+    """import from a directory holding patch.diff, demo.rs, notes.md, demo_path.txt"""
+    d = os.path.join(SEEDED, name)
+    os.makedirs(d, exist_ok=True)
+    for f in ("patch.diff", "demo.rs", "notes.md"):
+        shutil.copy(os.path.join(outdir, f), os.path.join(d, f))
+    for f in ("demo_cargo.diff",):
+        if os.path.exists(os.path.join(outdir, f)):
+            shutil.copy(os.path.join(outdir, f), os.path.join(d, f))
+    demo = open(os.path.join(outdir, "demo_path.txt")).read().strip().split()[0]
+    if demo.startswith("/"):
+        demo = demo.split("/", 4)[-1] if demo.startswith("/tmp/") else demo
+    m = {"name": name, "property": prop, "demo_path": demo, "source": "independent sub-agent given only the property text (and a one-line description of an earlier change to avoid) and a scratch worktree",
+         "needs": "", "verified": None, "runs": {}}
+    save(name, m)
+    print("imported", name, "demo at", demo)
+
+
 def cmd_verify(name):
     m = load(name)
     wt = "/tmp/seedverify_" + name
@@ -153,6 +171,8 @@ if __name__ == "__main__":
     a = sys.argv
     if len(a) >= 5 and a[1] == "import":
         cmd_import(a[2], a[3], a[4])
+    elif len(a) >= 5 and a[1] == "import2":
+        cmd_import2(a[2], a[3], a[4])
     elif len(a) >= 3 and a[1] == "verify":
         r = cmd_verify(a[2])
         sys.exit(0 if r.get("ok") else 1)
